@@ -35,7 +35,7 @@ CHECKS = {
          "The complete bounded input space is evaluated on the real validator, matcher and ServeMux and compared with a reference written from section 4.7 independently of filter.go; the state space is the input space.",
          "trusted: the reference matcher/validator; alphabets larger than two literal characters and longer strings are not covered ('$' topics are excluded by the statement)",
          "DESIGN.md 3 C14"),
- "C19": ("bounded-exhaustive enumeration of error chains (depth<=3 quick / <=5 thorough, 6 wrapper kinds, 19 bases x 19 targets) and exhaustive schedule exploration (P<=2/3) of every request kind x failure step on real BaseClients, with Retry replayed on a fresh connected client; RetryClient response-timeout errors checked with errors.As",
+ "C19": ("bounded-exhaustive enumeration of error chains (depth<=3 quick / <=5 thorough, 6 wrapper kinds, 19 bases x 19 targets) and exhaustive schedule exploration (P<=2/3) of every request kind x failure step on real BaseClients, with Retry replayed on a fresh connected client; RetryClient response-timeout errors checked with errors.As, and the ending reported by RetryClient.Ping (caller context first vs ResponseTimeout first) with errors.Is / errors.As",
          "errors.Is on every generated chain must equal membership computed from the construction recipe; io.EOF and nil pass through; every interrupted QoS>=1 publish/subscribe/unsubscribe on a real client (write error, peer close, context cancel, also between PUBREC and PUBCOMP) returns an ErrorWithRetry whose Retry re-issues exactly that request on the client it is given; an expired response timeout is identifiable as RequestTimeoutError.",
          "trusted: the construction-recipe oracle, scripted peer, vrt scheduler; chains deeper than the bound are not covered",
          "DESIGN.md 3 C19"),
